@@ -387,6 +387,26 @@ def rule_setunset_check(ctx, rule='R14.u'):
             r = outcome(w)
             if r != 'ValueError':
                 bad.append('check() on an empty table: %s' % (r or 'no exception'))
+            # histories with re-assignments and overwrites: one entry assigned as often as the table has entries, the
+            # others never (a bookkeeping counter instead of looking at the values is fooled by this)
+            w = World(ctx.prog, qual)
+            for i in range(len(allkeys) * (2 if pair else 1) + 1):
+                w.call('__setitem__', w.key(*allkeys[0]), w.payload('again%d' % i))
+            r = outcome(w)
+            if r != 'ValueError':
+                bad.append('check() %s after one entry was assigned %d times while all others are unset'
+                           % ('passes' if r is None else 'raises ' + r, len(allkeys) * (2 if pair else 1) + 1))
+            # list-key assignment followed by corrections, one entry left out
+            w = World(ctx.prog, qual)
+            some = allkeys[:-1]
+            for k in some:
+                w.call('__setitem__', w.key(*k), w.payload('v'))
+            for k in some[:2]:
+                w.call('__setitem__', w.key(*k), w.payload('w'))
+            r = outcome(w)
+            if r != 'ValueError':
+                bad.append('check() %s although %s was never assigned (other entries were re-assigned)'
+                           % ('passes' if r is None else 'raises ' + r, allkeys[-1]))
             return bad
         bad = _guard(ctx, 'R14.k', construct, m.loc(), run_ck)
         if bad is not None:
